@@ -91,7 +91,14 @@ fn batch(st: &mut Stats, order: u64, exprs: &[Expr], vals: &[[i64; 4]], what: &s
 
 fn unary_prefixes() -> Vec<Vec<UnOp>> {
     use UnOp::*;
-    vec![vec![Neg], vec![Not], vec![Inv], vec![Neg, Neg], vec![Neg, Not], vec![Neg, Inv], vec![Inv, Neg], vec![Not, Neg], vec![Inv, Not]]
+    // every prefix of one or two unary operators
+    let mut v = vec![vec![Neg], vec![Not], vec![Inv]];
+    for a in [Neg, Not, Inv] {
+        for b in [Neg, Not, Inv] {
+            v.push(vec![a, b]);
+        }
+    }
+    v
 }
 
 fn operand(i: usize, prefix: &[UnOp]) -> (Vec<String>, Expr) {
@@ -152,7 +159,7 @@ pub fn run(tier: Tier, seed: u64) -> i32 {
 
     // part 1a: flat chains, one unit of work = one operator triple x one valuation
     let nvals_pref = vals.len() as u64;
-    let st = par_range("1a: chains p o q o r o s over all 16^3 operator triples x (no prefix + 9 unary prefixes x 4 operand positions) x valuations", 4096 * vals.len() as u64, &deadline, |idx, st| {
+    let st = par_range("1a: chains p o q o r o s over all 16^3 operator triples x (no prefix + 12 unary prefixes x 4 operand positions) x valuations", 4096 * vals.len() as u64, &deadline, |idx, st| {
         let ops = triple(idx % 4096);
         let vi = (idx / 4096) as usize;
         let v = vals[vi];
@@ -247,7 +254,14 @@ pub fn run(tier: Tier, seed: u64) -> i32 {
 
     // part 2: operator table over the boundary set, operands read from the device
     let ov = operand_values();
-    let st = par_range("2: 16 binary operators x V^2 and 3 unary operators x V (V = 19 boundary operands)", 19, &deadline, |idx, st| {
+    // unary operator strings of length 1..3 (39), applied directly to each other
+    let mut unary_strings: Vec<Vec<UnOp>> = vec![];
+    for len in 1..=3usize {
+        for code in 0..3usize.pow(len as u32) {
+            unary_strings.push((0..len).map(|j| UNOPS[(code / 3usize.pow(j as u32)) % 3]).collect());
+        }
+    }
+    let st = par_range("2: 16 binary operators x V^2 and 39 strings of 1..3 unary operators x V (V = 19 boundary operands)", 16 + unary_strings.len() as u64, &deadline, |idx, st| {
         let (expr, pairs): (Expr, Vec<[i64; 4]>) = if idx < 16 {
             let op = BINOPS[idx as usize];
             let e = bin(op, name("p"), name("q"));
@@ -259,8 +273,11 @@ pub fn run(tier: Tier, seed: u64) -> i32 {
             }
             (e, pairs)
         } else {
-            let op = UNOPS[(idx - 16) as usize];
-            (un(op, name("p")), ov.iter().map(|a| [*a, 0, 0, 0]).collect())
+            let mut e = name("p");
+            for op in unary_strings[(idx - 16) as usize].iter().rev() {
+                e = un(*op, e);
+            }
+            (e, ov.iter().map(|a| [*a, 0, 0, 0]).collect())
         };
         let pairs: Vec<[i64; 4]> = pairs.into_iter().filter(|v| ok_under(&expr, v)).collect();
         st.nontrivial += pairs.len() as u64;
@@ -366,7 +383,7 @@ pub fn run(tier: Tier, seed: u64) -> i32 {
         id: "C08",
         tier,
         seed,
-        rule: "part 1a: every flat chain of four operands and three of the 16 binary operators, without and with one operand prefixed by one of 9 unary prefixes, printed without parentheses, reference tree built by level-by-level left-associative reduction; part 1b: every binary tree shape over four leaves x operator triple, printed with minimal and with full parentheses; part 2: every operator x every pair of 19 boundary operands; part 3: ite laziness; part 4: literal radixes. Cases whose reference value is an error (division by zero) belong to C10 and are filtered (counted out_of_scope when a whole unit vanishes). Every enumerated (expression, valuation) is distinct by construction".into(),
+        rule: "part 1a: every flat chain of four operands and three of the 16 binary operators, without and with one operand prefixed by one of the 12 unary prefixes of length 1 or 2, printed without parentheses, reference tree built by level-by-level left-associative reduction; part 1b: every binary tree shape over four leaves x operator triple, printed with minimal and with full parentheses; part 2: every operator x every pair of 19 boundary operands; part 3: ite laziness; part 4: literal radixes. Cases whose reference value is an error (division by zero) belong to C10 and are filtered (counted out_of_scope when a whole unit vanishes). Every enumerated (expression, valuation) is distinct by construction".into(),
         assumptions: vec![
             "reference evaluator refsem::binop/unop/climb is the oracle (i64 wrapping, shift count & 63, truncating division, MIN/-1 = MIN, MIN%-1 = 0)".into(),
             "valuations are a fixed set of 12 (4 for the unary-prefixed chains in the quick tier) chosen so that different trees give different values; values outside the boundary sets are not enumerated (DESIGN section 10)".into(),
